@@ -338,6 +338,163 @@ fn signature(st: &St) -> String {
     }
 }
 
+// ---------------------------------------------------------------------------------------
+// Label-set scenarios: multi-label patterns (2-3 labels, every written order) in MERGE,
+// MATCH sources, CREATE and SET / REMOVE label, on stores whose label populations are
+// deliberately unequal and overlapping: a broad label with several nodes, a narrow one with
+// one or two, and nodes carrying a strict subset of a pattern's labels with the same
+// properties.  (Class of the seeded change C04-a: a MERGE that checks only some labels.)
+// ---------------------------------------------------------------------------------------
+
+fn shuffled(rng: &mut Rng, mut v: Vec<u32>) -> Vec<u32> {
+    for i in (1..v.len()).rev() {
+        let j = rng.usize(i + 1);
+        v.swap(i, j);
+    }
+    v
+}
+
+/// number of nodes of `g` that carry every label of `ls` and `k0 = id`
+fn count_matches(g: &DumpG, ls: &[u32], id: i64) -> usize {
+    g.nodes
+        .iter()
+        .filter(|(_, lt, ps)| {
+            let have: Vec<&str> = lt.split('.').collect();
+            ls.iter().all(|l| have.contains(&l.to_string().as_str())) && ps.split(',').any(|p| p == format!("0=I{}", id))
+        })
+        .count()
+}
+
+const IDS: [i64; 5] = [1, 7, 8, 9, 5];
+
+fn label_subset(rng: &mut Rng, min: usize) -> Vec<u32> {
+    let all = shuffled(rng, vec![0, 1, 2]);
+    let n = (min + rng.usize(4 - min)).min(3);
+    all[..n].to_vec()
+}
+
+fn gen_label_stmt(rng: &mut Rng, pre: &DumpG) -> St {
+    let id = *rng.pick(&IDS);
+    match rng.below(12) {
+        // MERGE of a multi-label node pattern, row-less or UNWIND-driven, ON CREATE / ON MATCH
+        0 | 1 | 2 | 3 => {
+            let ls = label_subset(rng, if rng.chance(1, 6) { 1 } else { 2 });
+            let unwind = rng.chance(1, 3);
+            let ids: Vec<i64> = if unwind { (0..rng.range(1, 3)).map(|_| *rng.pick(&IDS)).collect() } else { vec![id] };
+            let risky = ids.iter().any(|i| count_matches(pre, &ls, *i) >= 2);
+            let oc = if rng.chance(2, 3) { vec![SetItem::Prop(1, 1, int(rng.range(10, 12)))] } else { vec![] };
+            // ON MATCH / RETURN must not observe a pattern with several matches (S binds the
+            // first, the engine an arbitrary one)
+            let om = if !risky && rng.chance(2, 3) { vec![SetItem::Prop(1, 2, int(rng.range(20, 22)))] } else { vec![] };
+            let mut cls = vec![];
+            let val = if unwind {
+                cls.push(Cl::Unwind(Ex::List(ids.iter().map(|i| int(*i)).collect()), 0));
+                Ex::Var(0)
+            } else {
+                int(id)
+            };
+            cls.push(Cl::Merge(NPat { var: Some(1), labels: ls, props: vec![(0, val)] }, oc, om));
+            let ret = if !risky && rng.chance(1, 3) { Some(vec![Ex::Prop(1, 0)]) } else { None };
+            St { cls, ret }
+        }
+        // MATCH on a multi-label pattern, then a write on the row's node (or a read-only look)
+        4 | 5 | 6 => {
+            let ls = label_subset(rng, 2);
+            let mut cls = vec![Cl::MatchN(1, ls, if rng.chance(1, 3) { vec![(0, int(id))] } else { vec![] })];
+            if rng.chance(1, 4) {
+                cls.push(Cl::Filter(bin("ge", Ex::Prop(1, 0), int(rng.range(1, 8)))));
+            }
+            let z = rng.below(3) as u32;
+            match rng.below(7) {
+                0 => cls.push(Cl::Set(vec![SetItem::Prop(1, 1, int(rng.range(30, 32)))])),
+                1 => cls.push(Cl::Set(vec![SetItem::Label(1, z)])),
+                2 => cls.push(Cl::Set(vec![SetItem::Label(1, z), SetItem::Label(1, (z + 1) % 3)])),
+                3 => cls.push(Cl::Remove(vec![RemItem::Label(1, z)])),
+                4 => cls.push(Cl::Remove(vec![RemItem::Label(1, z), RemItem::Label(1, (z + 2) % 3)])),
+                5 => cls.push(Cl::Delete(true, vec![1])),
+                _ => return St { cls, ret: Some(vec![Ex::Prop(1, 0), Ex::Prop(1, 1), Ex::Prop(1, 2)]) },
+            }
+            St { cls, ret: if rng.chance(1, 4) { Some(vec![Ex::Prop(1, 0)]) } else { None } }
+        }
+        // CREATE with several labels (node, or a path between multi-label nodes)
+        7 => {
+            let a = NPat { var: Some(1), labels: label_subset(rng, 2), props: vec![(0, int(id))] };
+            if rng.chance(1, 2) {
+                let b = NPat { var: Some(2), labels: label_subset(rng, 1), props: vec![(0, int(*rng.pick(&IDS)))] };
+                St { cls: vec![Cl::Create(vec![CPath { a, seg: Some((rng.below(NT as u64) as u32, vec![], rng.chance(1, 2), b)) }])], ret: None }
+            } else {
+                St { cls: vec![Cl::Create(vec![CPath { a, seg: None }])], ret: None }
+            }
+        }
+        // MATCH multi-label, CREATE a relationship to a new multi-label node
+        8 => {
+            let b = NPat { var: Some(2), labels: label_subset(rng, 2), props: vec![(0, Ex::Prop(1, 0))] };
+            St {
+                cls: vec![Cl::MatchN(1, label_subset(rng, 2), vec![]), Cl::Create(vec![CPath { a: NPat { var: Some(1), labels: vec![], props: vec![] }, seg: Some((rng.below(NT as u64) as u32, vec![], true, b)) }])],
+                ret: None,
+            }
+        }
+        // single-label MATCH, label surgery
+        9 => {
+            let x = rng.below(3) as u32;
+            let mut cls = vec![Cl::MatchN(1, vec![x], if rng.chance(1, 2) { vec![(0, int(id))] } else { vec![] })];
+            if rng.chance(1, 2) {
+                cls.push(Cl::Set(vec![SetItem::Label(1, (x + 1) % 3), SetItem::Label(1, (x + 2) % 3)]));
+            } else {
+                cls.push(Cl::Remove(vec![RemItem::Label(1, (x + 1) % 3)]));
+            }
+            St { cls, ret: None }
+        }
+        // MERGE of a relationship pattern between multi-label nodes (whole pattern or nothing)
+        _ => {
+            let a = NPat { var: Some(1), labels: label_subset(rng, if rng.chance(1, 4) { 1 } else { 2 }), props: vec![(0, int(id))] };
+            let b = NPat { var: Some(2), labels: label_subset(rng, 1), props: vec![(0, int(*rng.pick(&IDS)))] };
+            St { cls: vec![Cl::MergeRel(a, rng.below(NT as u64) as u32, b)], ret: None }
+        }
+    }
+}
+
+fn run_label_scenario(rng: &mut Rng, cases: &mut Vec<Case>) {
+    let perm = shuffled(rng, vec![0, 1, 2]);
+    let (a, b, c) = (perm[0], perm[1], perm[2]);
+    let node = |rng: &mut Rng, ls: Vec<u32>, id: i64| St { cls: vec![Cl::Create(vec![CPath { a: NPat { var: None, labels: shuffled(rng, ls), props: vec![(0, int(id))] }, seg: None }])], ret: None };
+    // broad label `a`: three nodes; narrow label `b`: one node sharing the probe id 7
+    let mut setup = vec![node(rng, vec![a], 1), node(rng, vec![a], 2), node(rng, vec![a], 3), node(rng, vec![b], 7)];
+    if rng.chance(1, 2) {
+        setup.push(node(rng, vec![b], 1));
+    }
+    for (ls, id) in [(vec![a, c], 7), (vec![b, c], 7), (vec![a, b], 8), (vec![a, b, c], 9), (vec![c], 8), (vec![a], 7)] {
+        if rng.chance(1, 3) {
+            setup.push(node(rng, ls, id));
+        }
+    }
+    if rng.chance(1, 2) {
+        let p = CPath { a: NPat { var: None, labels: shuffled(rng, vec![a, b]), props: vec![(0, int(8))] }, seg: Some((0, vec![], true, NPat { var: None, labels: vec![c], props: vec![(0, int(7))] })) };
+        setup.push(St { cls: vec![Cl::Create(vec![p])], ret: None });
+    }
+    let setup = {
+        // random order, so that ids and creation order do not line up with the populations
+        let idx = shuffled(rng, (0..setup.len() as u32).collect());
+        idx.into_iter().map(|i| setup[i as usize].clone()).collect::<Vec<_>>()
+    };
+    let mut store = GraphStore::new();
+    let mut texts = vec![];
+    let n_stmts = 5 + rng.usize(5);
+    for k in 0..setup.len() + n_stmts {
+        let pre = dump(&store);
+        let st = if k < setup.len() { setup[k].clone() } else { gen_label_stmt(rng, &parse_dump(&pre).unwrap_or_default()) };
+        let text = st.cypher();
+        texts.push(text.clone());
+        let o = exec(&mut store, &text, None);
+        let post = dump(&store);
+        let out = match &o.rows {
+            Ok(rows) => Ok(rows_text(rows)),
+            Err((k, _)) => Err(k.tag().to_string()),
+        };
+        cases.push(Case { pre, st, text, out, post, seq_texts: texts.clone() });
+    }
+}
+
 struct Case {
     pre: String,
     st: St,
@@ -434,6 +591,10 @@ fn main() {
                 stmts.push(if rng.chance(1, 40) { gen_known(&mut rng) } else { gen_stmt(&mut rng) });
             }
             run_sequence(&stmts, &mut cases);
+        }
+        let n_lab = if args.thorough() { 2500 } else { 300 };
+        for _ in 0..n_lab {
+            run_label_scenario(&mut rng, &mut cases);
         }
     }
 
